@@ -1602,6 +1602,18 @@ get_cast_function(CPPType *to_type, CPPType *from_type,
     string fname =
       clean_identifier(prefix + "_to_" + get_preferred_name(to_type));
 
+    // Two different target types may share a preferred name (say, classes of
+    // the same name in different namespaces).  The first keeps the short
+    // name; any other is named after its fully scoped name, so that each cast
+    // gets a function of its own.
+    string to_name = to_type->get_local_name(&parser);
+    std::pair<CastTargets::iterator, bool> result =
+      _cast_targets.insert(CastTargets::value_type(
+        from_type->get_local_name(&parser) + "::" + fname, to_name));
+    if (!result.second && (*result.first).second != to_name) {
+      fname = clean_identifier(prefix + "_to_" + to_name);
+    }
+
     // Make up a CPPFunctionType.
     CPPType *to_ptr_type = CPPType::new_type(new CPPPointerType(to_type));
 
